@@ -71,7 +71,7 @@ def build_cases(ctx, vh, model, nsets=40, real_frac=0.25, volume_damage=False):
             if volume_damage and ps.volumes and rng.random() < 0.35:
                 fs2 = dict(fs2)
                 v = rng.choice(ps.volumes)
-                how = rng.choice(["flip", "truncate", "foreign", "garbage"])
+                how = rng.choice(["flip", "flip", "truncate", "foreign", "garbage", "prepend", "append", "cutmiddle"])
                 if v in fs2:
                     d = fs2[v]
                     if how == "flip":
@@ -80,10 +80,17 @@ def build_cases(ctx, vh, model, nsets=40, real_frac=0.25, volume_damage=False):
                         fs2[v] = d[:rng.randrange(len(d))]
                     elif how == "garbage":
                         fs2[v] = L.gen_content(rng, "random", 100)
+                    elif how == "prepend":
+                        fs2[v] = L.gen_content(rng, "random", rng.choice([1, 3, 64, 200])) + d
+                    elif how == "append":
+                        fs2[v] = d + rng.choice([b"PAR2\0PKT", b"\0", L.gen_content(rng, "random", 70)])
+                    elif how == "cutmiddle":
+                        pos = rng.randrange(len(d)); fs2[v] = d[:pos] + d[pos + rng.choice([1, 4, 30]):]
                     else:
                         fs2[P.DIR + "/" + ps.base + ".zz.par2"] = b"PAR2\0PKT" + L.gen_content(rng, "random", 120)
                     vdesc += "+vol" + how
             cases.append({"set": ps, "desc": desc + "|" + vdesc, "fs": fs2, "dbl": dbl, "mode": mode,
+                          "dline": (L.line_verify("p2", "mem", ps.index, g, dict(fs2, **{v_: ps.created[v_] for v_ in ps.volumes})) if "+vol" in vdesc else None),
                           "vline": L.line_verify("p2", "mem", ps.index, g, fs2),
                           "rline": L.line_repair("p2", mode, ps.index, dbl, g, fs2, dirs=L.parent_dirs(ps.paths.values()))})
     return cases
@@ -102,8 +109,11 @@ def run(ctx):
             if L.canon(i, r.get("mode", "mem")) != L.canon(m, r.get("mode", "mem")):
                 ctx.violation("replay: implementation and model differ", {"lines": [l], "impl": i[:3000], "model": m[:3000], "mode": r.get("mode", "mem")})
         return ctx.finish("proof", rule="replay")
-    cases = build_cases(ctx, vh, model)
+    cases = build_cases(ctx, vh, model, volume_damage=True)
     vi, vm = P.run_both(ctx, vh, model, [c["vline"] for c in cases])
+    # the data side alone (all recovery files as created): how many slices are not cleanly present, whatever happened to the recovery files
+    dl = [c["dline"] for c in cases if c.get("dline")]
+    dres = dict(zip(dl, ctx.run_lines(vh, dl)))
     ri, rm = P.run_both(ctx, vh, model, [c["rline"] for c in cases], vmem_kb=None)
     dist = {"damage": {}, "model_repair_outcome": {}, "mode": {}, "at_capacity": 0, "beyond_capacity": 0}
     rep = [0]
@@ -145,6 +155,16 @@ def run(ctx):
             report("within recovery capacity (%d unusable slices, %d blocks) but Repair failed with %s (%s)" %
                    (cm["unusable"], cm["pusable"], px["res"], c["desc"]), replay)
             continue
+        # the same with capacity counted independently of gopar and of the model: recovery blocks whose complete packet is
+        # still present in some <base>.*.par2 file (damaged recovery files included) vs slices not cleanly present
+        cd = P.counts_of(L.parse_result(dres[c["dline"]])) if c.get("dline") else P.counts_of(pv)
+        if cd:
+            blocks = P.intact_block_count(ps, c["fs"])
+            dist["volume_damage"] = dist.get("volume_damage", 0) + ("+vol" in c["desc"])
+            if cd["unusable"] <= blocks and px["res"] not in ("ok", "err:singular"):
+                report("%d slices are not cleanly present and %d recovery blocks are intact beside the index, but Repair failed with %s (%s)" %
+                       (cd["unusable"], blocks, px["res"], c["desc"]), replay)
+                continue
         # --- correspondence ---
         if L.canon(a, "mem") != L.canon(b, "mem"):
             report("Verify differs from the proved model (%s): impl=%s model=%s" % (c["desc"], a[:100], b[:100]), replay, nf=True)
